@@ -98,7 +98,7 @@ fn expected_cqes(w: &World, i: usize) -> (Vec<(Cqe, Vec<u8>, u64, Vec<(i32, bool
                 continue;
             }
             let is_last_cqe = ci + 1 == r.posted.len() || r.posted[ci + 1..].iter().all(|c| c.flags & CQE_F_NOTIF != 0);
-            let restart = c.flags & CQE_F_MORE == 0 && (c.res == -libc::EINTR || c.res == -libc::ECANCELED) && is_last_cqe && ri + 1 < n;
+            let restart = (c.flags & CQE_F_MORE == 0 || r.zc) && (c.res == -libc::EINTR || c.res == -libc::ECANCELED) && is_last_cqe && ri + 1 < n;
             if restart {
                 continue;
             }
@@ -149,6 +149,11 @@ pub fn check_outcome(w: &mut World, i: usize, o: &Outcome) {
         w.violation("C02", "extra-result", format!("op #{id} ({kind:?}) produced result #{idx} ({}) but the kernel posted only {} results", o.brief(), cqes.len()));
         return;
     };
+    if matches!(o.res, Ok(v) if v == i64::from(crate::simk::enter::TRAP_RES)) {
+        w.violation("C05", "trap-entry-interpreted", format!("op #{id} ({kind:?}) resolved with the poison value of a completion-queue slot the kernel had not published (or that a10 had already given back)"));
+        w.poisoned = true;
+        return;
+    }
     if cqe.res == BOOKKEEPING_RES_BASE || matches!(o.res, Ok(v) if v == i64::from(BOOKKEEPING_RES_BASE)) {
         w.violation("C05", "bookkeeping-completion-delivered-to-op", format!("op #{id} ({kind:?}) observed the result of an injected bookkeeping/skip completion"));
         return;
@@ -171,7 +176,7 @@ pub fn check_outcome(w: &mut World, i: usize, o: &Outcome) {
         return;
     };
     if kind.creates_fd() {
-        let want_direct = matches!(kind, Kind_::SocketDirect | Kind_::OpenDirect | Kind_::PipeDirect | Kind_::ToDirect);
+        let want_direct = matches!(kind, Kind_::SocketDirect | Kind_::OpenDirect | Kind_::OpenDirectExtract | Kind_::PipeDirect | Kind_::ToDirect);
         let nums: Vec<i64> = o.afds.iter().map(crate::ops::raw_of).collect();
         let exp: Vec<i64> = fds.iter().map(|f| i64::from(f.0)).collect();
         if nums != exp {
@@ -183,7 +188,23 @@ pub fn check_outcome(w: &mut World, i: usize, o: &Outcome) {
                 w.violation("C07", "descriptor-wrong-kind", format!("op #{id} ({kind:?}) returned a descriptor of kind {:?}", a.kind()));
             }
         }
+        if kind == Kind_::Accept {
+            // The peer address the kernel wrote for this very completion.
+            let want = sockaddr_text(&effects::default_sockaddr(*_rid ^ (idx_in_req(w, i, *_rid, cqe) as u64) << 8));
+            if o.extra != want {
+                w.violation("C02", "wrong-result:address", format!("op #{id} (Accept): kernel wrote peer address {want}, op returned {}", o.extra));
+            }
+        }
         return;
+    }
+    if matches!(kind, Kind_::RecvFrom | Kind_::SocketName) && cqe.res >= 0 {
+        let want = sockaddr_text(&effects::default_sockaddr(*_rid));
+        if o.extra != want {
+            w.violation("C02", "wrong-result:address", format!("op #{id} ({kind:?}): kernel wrote address {want}, op returned {}", o.extra));
+        }
+        if kind == Kind_::SocketName {
+            return;
+        }
     }
     if kind.is_count() {
         if val != i64::from(cqe.res) {
@@ -215,6 +236,17 @@ pub fn check_outcome(w: &mut World, i: usize, o: &Outcome) {
             }
         }
     }
+}
+
+fn sockaddr_text(bytes: &[u8]) -> String {
+    let port = u16::from_be_bytes([bytes[2], bytes[3]]);
+    format!("{}.{}.{}.{}:{port}", bytes[4], bytes[5], bytes[6], bytes[7])
+}
+
+/// Index of `cqe` among the completions posted for request `rid`.
+fn idx_in_req(_w: &World, _i: usize, rid: u64, cqe: &Cqe) -> usize {
+    let k = simk::k();
+    k.reqs.get(&rid).and_then(|r| r.posted.iter().position(|c| c == cqe)).unwrap_or(0)
 }
 
 /// C09: re-issued requests must be byte-identical to the first attempt.
@@ -251,12 +283,14 @@ fn pick_result(rng: &mut Rng, cfg: &GenCfg, w: &World, req: &simk::Req) -> (i32,
     let more = multi && rng.chance(700, 1000);
     let zc_more = req.zc && rng.chance(800, 1000);
     let x = rng.below(1000);
+    // A failed zero-copy send may still be followed by its notification.
+    let zc_notif_after_error = req.zc && rng.chance(1, 2);
     if x < cfg.p_interrupt && !more {
         let e = if rng.chance(1, 2) { libc::EINTR } else { libc::ECANCELED };
-        return (-e, false);
+        return (-e, zc_notif_after_error);
     }
     if x < cfg.p_interrupt + cfg.p_error && !more {
-        return (-*rng.pick(errno_pool()), false);
+        return (-*rng.pick(errno_pool()), zc_notif_after_error);
     }
     let _ = w;
     let full = match sqe.opcode() {
@@ -705,9 +739,13 @@ fn inject_bookkeeping(w: &mut World, rng: &mut Rng, rep: &mut Report) {
     let fd = w.ring_fd;
     let live_ud: Vec<u64> = w.slots.iter().filter(|s| s.user_data != 0 && s.op.is_some() && w.has_live_request_ud(s.user_data)).map(|s| s.user_data).collect();
     let mut k = simk::k();
-    let cqe = match rng.below(4) {
+    let cqe = match rng.below(6) {
         0 => Cqe { user_data: 1, res: rng.next() as i32 & 0xffff, flags: 0 },
         1 => Cqe { user_data: 2, res: if rng.chance(1, 2) { -libc::ENOENT } else { -libc::EALREADY }, flags: 0 },
+        // A background close that failed (the kernel only posts those).
+        3 => Cqe { user_data: 3, res: -*rng.pick(&[libc::EBADF, libc::EIO, libc::EINTR, libc::ENOSPC]), flags: 0 },
+        // A cancel request that failed in another way.
+        4 => Cqe { user_data: 2, res: -*rng.pick(&[libc::EINVAL, libc::ENOMEM]), flags: 0 },
         2 if !live_ud.is_empty() => Cqe { user_data: *rng.pick(&live_ud), res: BOOKKEEPING_RES_BASE, flags: CQE_F_SKIP },
         _ => Cqe { user_data: rng.below(4), res: BOOKKEEPING_RES_BASE, flags: CQE_F_SKIP },
     };
